@@ -103,6 +103,21 @@ func exploreTx(r *core.Run) func() {
 	return wg.Wait
 }
 
+// exploreWriter runs the exhaustive configurations of Writer.tla (the background writer).
+func exploreWriter(r *core.Run) func() {
+	cfg := "MC_Writer_q.cfg"
+	if r.Thorough() {
+		cfg = "MC_Writer.cfg"
+	}
+	var wg sync.WaitGroup
+	wg.Add(1)
+	go func() {
+		defer wg.Done()
+		r.Explore(core.TLCOpts{Module: "Writer", Config: cfg, Timeout: 60 * time.Minute, HeapMB: 12000, Workers: 6})
+	}()
+	return wg.Wait
+}
+
 // exploreResize runs the TxFile.tla configurations with max-size changes on open (ResizeHdr,
 // ResizeSync, forced release commit, release of free pages beyond the limit in every commit).
 func exploreResize(r *core.Run) func() {
@@ -152,6 +167,7 @@ func baseCfgs(r *core.Run, name string, n int, f func(i int, c *HistCfg)) []Hist
 // CheckC03: the store returns what was written.
 func CheckC03(r *core.Run) {
 	defer exploreTx(r)()
+	defer exploreWriter(r)()
 	r.Rule = "random transaction histories (alloc, full/partial SetBytes, Load+MarkDirty, free, Flush, CheckpointWAL, SetRoot, commit/rollback/close, reopen) over page size x max size x initial meta area x WAL limit; every read (inside write transactions, through readers after every transaction, after reopen) is judged by TLC against the sequential model of TxTrace.tla; distinct = distinct configurations/seeds"
 	cfgs := baseCfgs(r, "c03", r.Pick(36, 240), func(i int, c *HistCfg) {
 		c.Txs = r.Pick(30, 60)
@@ -189,6 +205,7 @@ func CheckC03(r *core.Run) {
 			}
 		}
 	}
+	judgeWriter(r, traces, "C01", "C08")
 	judgeTx(r, traces, reportOpts{})
 }
 
